@@ -614,23 +614,14 @@ def holds(spec, c, P):
                     span = max(tk[n]["end"] for n in names) - min(tk[n]["start"] for n in names)
                     res = _b(span <= c["length"])
             if k == "OrderedTaskGroup" and res != F:
+                # the order holds between consecutive SCHEDULED members (an unscheduled member is as if deleted)
                 m = c.get("mode") or "lax"
-                full = c["tasks"]
-                for i in range(len(full) - 1):
-                    a, b = tk[full[i]], tk[full[i + 1]]
-                    if a["scheduled"] and b["scheduled"]:
-                        ok = {"lax": a["end"] <= b["start"], "strict": a["end"] < b["start"],
-                              "tight": a["end"] == b["start"]}[m]
-                        if not ok:
-                            return F
-                # scheduled tasks separated by unscheduled ones: order unclear
-                for i in range(len(names) - 1):
-                    a, b = tk[names[i]], tk[names[i + 1]]
-                    if full.index(names[i + 1]) - full.index(names[i]) > 1:
-                        ok = {"lax": a["end"] <= b["start"], "strict": a["end"] < b["start"],
-                              "tight": a["end"] == b["start"]}[m]
-                        if not ok:
-                            res = B
+                for n0, n1 in zip(names, names[1:]):
+                    a, b = tk[n0], tk[n1]
+                    ok = {"lax": a["end"] <= b["start"], "strict": a["end"] < b["start"],
+                          "tight": a["end"] == b["start"]}[m]
+                    if not ok:
+                        return F
             return res
         if k == "ScheduleNTasksInTimeIntervals":
             lo_cnt = hi_cnt = 0
